@@ -29,6 +29,7 @@ func (q *WriteDedupQueue) GetChunk(id ChunkID) (*Chunk, error) {
 	q.storeChunkQueue.mu.Lock()
 	req, isInFlight := q.storeChunkQueue.requests[id]
 	q.storeChunkQueue.mu.Unlock()
+	verifYield("wdedup.get.afterLookup")
 
 	if isInFlight {
 		data, err := req.wait()
@@ -53,6 +54,7 @@ func (q *WriteDedupQueue) HasChunk(id ChunkID) (bool, error) {
 func (q *WriteDedupQueue) StoreChunk(chunk *Chunk) error {
 	id := chunk.ID()
 	req, isInFlight := q.storeChunkQueue.loadOrStore(id)
+	verifYield("wdedup.store.afterLoadOrStore")
 
 	if isInFlight { // The request is already in-flight, wait for it to come back
 		_, err := req.wait()
@@ -64,11 +66,14 @@ func (q *WriteDedupQueue) StoreChunk(chunk *Chunk) error {
 
 	// Signal to any others that wait for us that we're done, they'll use our data
 	// and don't need to hit the store themselves
+	verifYield("wdedup.store.beforeMarkDone")
 	req.markDone(chunk, err)
+	verifYield("wdedup.store.afterMarkDone")
 
 	// We're done, drop the request from the queue to avoid keeping all the chunk data
 	// in memory after the request is done
 	q.storeChunkQueue.delete(id)
+	verifYield("wdedup.store.afterDelete")
 
 	return err
 }
